@@ -613,6 +613,20 @@ def analyze(scenario, log):
             hist[(w[1], int(w[2]))] = [tuple(int(y) for y in x.split(",")) for x in w[5:5 + n]]
         elif k == "W":
             wsums[(w[1], int(w[2]))] = dict(x.split("=") for x in w[3:] if "=" in x)
+        elif k == "Z" and len(w) > 3 and w[2].isdigit():
+            # second life: the object was terminated and initialised again after the run had been ended
+            z = dict(x.split("=") for x in w[3:] if "=" in x)
+            prop_ = {"res": "C05", "pool": "C07", "buf": "C11", "oq": "C12", "pq": "C12"}.get(w[1])
+            for fld in ("inuse", "level", "len"):
+                if fld in z and int(z[fld]) != 0 and prop_:
+                    bad(prop_, "%s %s, terminated and initialised again after the run, reports %s=%s instead of 0: the new life starts "
+                        "with what the old one left behind" % (w[1], w[2], fld, z[fld]))
+            if int(z.get("hist", 0)) != 0:
+                bad("C14", "%s %s, terminated and initialised again, starts with %s samples in its history" % (w[1], w[2], z["hist"]))
+            capz = {"pool": ("avail", objs["pool"]), "buf": ("space", objs["buf"])}.get(w[1])
+            if capz and int(w[2]) < len(capz[1]) and capz[0] in z and int(z[capz[0]]) != capz[1][int(w[2])] and prop_:
+                bad(prop_, "%s %s, terminated and initialised again, reports %s=%s; its capacity is %d"
+                    % (w[1], w[2], capz[0], z[capz[0]], capz[1][int(w[2])]))
         elif k == "cap":
             events_final = None
             capped[0] = True
